@@ -12,7 +12,8 @@ for m in sorted(glob.glob("/verif/seeded/*/meta.json"), key=lambda p: (re.sub(r"
     what = d.get("what") or d.get("change") or ""
     det = d.get("detected_by") or []
     rows.append((sid, d.get("property", ""), d.get("round", ""), what, d.get("needs", ""), det))
-first = [r for r in rows if not any("after" in x for x in r[5])]
+missed = [r for r in rows if not r[5]]
+first = [r for r in rows if r[5] and not any("after" in x for x in r[5])]
 after = [r for r in rows if any("after" in x for x in r[5])]
 
 
@@ -22,10 +23,10 @@ def cell(x):
 
 out = ["# Independently seeded regressions", "",
        f"{len(rows)} seeds: {len(first)} detected at the first run of some check, {len(after)} only after the named check was "
-       "strengthened (never loosened).  Each directory holds `patch.diff` (apply to /repo HEAD), the seeding agent's `demo.py` "
+       f"strengthened (never loosened), {len(missed)} not detected ({', '.join(r[0] for r in missed) or '-'}; see their meta.json).  Each directory holds `patch.diff` (apply to /repo HEAD), the seeding agent's `demo.py` "
        "and `NOTES.md`, and `meta.json`.  Re-run one with `tools/mutant.sh seeded/<id>/patch.diff <CHECK>` (exit 1 expected).", "",
        "| seed | property | round | the edit | what it needs to show | detected by |", "|---|---|---|---|---|---|"]
 for sid, prop, rnd, what, needs, det in rows:
-    out.append(f"| {sid} | {cell(prop)} | {rnd} | {cell(what)} | {cell(needs)} | {cell('; '.join(det))} |")
+    out.append(f"| {sid} | {cell(prop)} | {rnd} | {cell(what)} | {cell(needs)} | {cell('; '.join(det) or 'NOT DETECTED')} |")
 open("/verif/seeded/README.md", "w").write("\n".join(out) + "\n")
-print(len(rows), len(first), len(after))
+print(len(rows), len(first), len(after), len(missed))
